@@ -26,7 +26,7 @@ UVals   == { <<>>, <<B("buddhist")>>, <<B("true")>>, <<B("islamic"), B("civil")>
              <<B("True")>>, <<B("islamic"), B("TRUE")>> }
 Attrs   == { B("foo"), B("bar"), B("FOO"), B("abcdefgh"), B("ab"), B("abcdefghi"), B("fo-o"), B(""), B("zzz") }
 TLangs  == { B("en"), B("en-US"), B("EN-latn-us-valencia"), B("und"), B("x"), B("en-"), B(""), B("de-1996-bavarian"),
-             B("abcdefgh-Latn"), B("abcde-419") }
+             B("abcdefgh-Latn"), B("abcde-419"), B("be-1959acad-tarask") }
 TKeys   == { B("h0"), B("k0"), B("H0"), B("0h"), B("h"), B("hh"), B("") }
 TVals   == { <<>>, <<B("hybrid")>>, <<B("true")>>, <<B("googlevk"), B("extended")>>, <<B("ab")>>,
              <<B("Windows")>>, <<B("a"), B("b")>>, <<B("hybrid"), B("!")>>, <<B("TRUE")>>, <<B("hybrid"), B("True")>> }
@@ -36,7 +36,10 @@ Scripts == { B("Latn"), B("latn"), B("Lat"), B("Cyrl"), B("1234") }
 Regions == { B("US"), B("us"), B("419"), B("4190"), B("u1") }
 VarLists == { <<>>, <<B("valencia")>>, <<B("1996"), B("valencia")>>, <<B("valencia"), B("1996"), B("valencia")>>,
               <<B("abcd")>>, <<B("VALENCIA")>>, <<B("valencia"), B("x")>>, <<B("1996"), B("1996"), B("valencia")>>,
-              <<B("1ABC"), B("1abc")>> }
+              <<B("1ABC"), B("1abc")>>,
+              (* digit-led variants of variant length 5..8 and all-digit ones: a shape of their own in every length-and-   *)
+              (* first-byte dispatch                                                                                       *)
+              <<B("1959acad")>>, <<B("valencia"), B("12345678"), B("1abcd")>> }
 Variants == { B("valencia"), B("1996"), B("abcd"), B("VALENCIA") }
 
 OpsU == { OpKV("set_keyword", k, v) : k \in UKeys, v \in UVals }
@@ -104,7 +107,8 @@ HOpsX == { OpS("add_tag", t) : t \in {B("a"), B("b"), B("c"), B("D"), B("")} }
          \cup { OpS("has_tag", t) : t \in {B("c")} } \cup { Op0("clear_tags") }
 HOpsId == { OpS("set_language", l) : l \in {B("de"), B("UND"), B("abcd")} } \cup { OpS("set_script", x) : x \in {B("cyrl"), B("Lat")} }
           \cup { OpS("set_region", r) : r \in {B("419"), B("u1")} }
-          \cup { OpV("set_variants", v) : v \in {<<>>, <<B("1996"), B("1996"), B("valencia")>>, <<B("valencia"), B("1ABC"), B("valencia")>>, <<B("abcd")>>} }
+          \cup { OpV("set_variants", v) : v \in {<<>>, <<B("1996"), B("1996"), B("valencia")>>, <<B("valencia"), B("1ABC"), B("valencia")>>, <<B("abcd")>>,
+                                                   <<B("1959acad"), B("12345")>>} }
           \cup { OpS("has_variant", v) : v \in {B("1996")} }
           \cup { Op0("clear_language"), Op0("clear_script"), Op0("clear_region"), Op0("clear_variants") }
 
